@@ -177,6 +177,11 @@ def proc(bus=None):
         return f'I{RT.inst_of_task[t]}'
     if t in RT.xid:
         return f'X{RT.xid[t]}'
+    # a helper task created inside a handler body (by the library on the handler's behalf, e.g. a shielded call) acts for
+    # that handler instance: the context it inherited names it; run-loop tasks created inside a handler do not
+    i = INST.get()
+    if i is not None and not any(b._runloop_task is t for b in RT.busidx):
+        return f'I{i}'
     if bus is not None:
         return f'R{RT.busidx[bus]}'
     for b, i in RT.busidx.items():
@@ -189,7 +194,8 @@ def errkind(err):
     if err is None:
         return None
     if isinstance(err, TimeoutError):
-        return 'timeout'
+        # (bubus' own timeout errors say so; any other TimeoutError is one a handler raised by itself)
+        return 'timeout' if 'timed out after' in str(err) else 'TimeoutError-raised-by-handler'
     if isinstance(err, asyncio.CancelledError):
         # bubus' own cancellation errors carry a message; a bare CancelledError is one a handler let escape by itself
         return 'cancelled' if str(err) else 'CancelledError-raised-by-handler'
@@ -464,7 +470,14 @@ class TBus(EventBus):
     def _start(self):
         was_running = self._is_running
         had_queue = self.event_queue is not None
-        super()._start()
+        if INST.get() is not None:
+            # started from inside a handler: the run-loop task inherits a copy of that handler's context (bubus' own
+            # variables included) - all but the harness's note of which handler instance is acting
+            ctx = contextvars.copy_context()
+            ctx.run(INST.set, None)
+            ctx.run(super()._start)
+        else:
+            super()._start()
         if not had_queue and self.event_queue is not None:
             q = TQ(maxsize=self.event_queue.maxsize)
             q.bus = self
@@ -513,6 +526,7 @@ class TBus(EventBus):
 
 _orig_update = BaseEvent.event_result_update
 EXECUTOR = contextvars.ContextVar('verif_harness_executor', default=None)
+INST = contextvars.ContextVar('verif_harness_instance', default=None)
 
 
 def traced_event_result_update(self, handler, eventbus=None, **kwargs):
@@ -621,10 +635,13 @@ async def run_prog(i, bi, event, prog, sync):
     slots = {}
     made = {}        # every event object the program created, accepted or refused (a refused one may be dispatched again)
     ret = None
+    strict = False   # does the handler let the exception of a refused dispatch escape (instead of carrying on)
     for ins in prog:
         op = ins[0]
         if op == 'sleep':
             await asyncio.sleep(ins[1])
+        elif op == 'strict':
+            strict = True
         elif op == 'dispatch':
             ev = mk_event(ins[2])
             made[ins[3]] = ev
@@ -632,6 +649,8 @@ async def run_prog(i, bi, event, prog, sync):
                 slots[ins[3]] = RT.buses[ins[1]].dispatch(ev)
             except Exception:
                 slots[ins[3]] = None
+                if strict:
+                    raise
         elif op == 'redispatch':
             ev = slots.get(ins[1]) or made.get(ins[1])
             if ev is not None:
@@ -694,6 +713,9 @@ async def run_prog(i, bi, event, prog, sync):
             helper.cancel()
             RT.selfraised.add(i)
             await helper
+        elif op == 'raise_timeout':
+            # a TimeoutError of the handler's own (an inner wait_for, a socket timeout): nobody's deadline for the handler passed
+            raise TimeoutError(f'handler instance {i}: an operation inside the handler timed out')
         elif op == 'raise':
             # the ways application code raises: plainly, chained (`from`), or while handling another exception
             if i % 3 == 1:
@@ -797,6 +819,7 @@ def make_handler(bi, k, h):
         e = eid(event)
         i = claim(e)
         RT.inst_of_task[asyncio.current_task()] = i
+        INST.set(i)
         RT.inst_real[i] = (event, bi, k)
         RT.rec('hStart', i=i, b=bi, e=e, h=k)
         try:
